@@ -187,8 +187,11 @@ contract('ProxyProtocolV1.__get_pp_ip', module=M, props=['C18'],
 
 contract('ProxyProtocolV1.__get_pp_port', module=M, props=['C18'],
          params={'cls': 'Cls', 'port_string': 'Bytes', 'which': 'Str'}, returns='Int',
-         ensures=['0 <= result and result <= 65535', 'py_int_ok(port_string) and result == py_int_val(port_string)'],
-         raises={'AssertionError': ['not py_int_ok(port_string) or py_int_val(port_string) < 0 or py_int_val(port_string) > 65535']},
+         # a port is a run of ASCII decimal digits (int() alone also takes '8_0', '+25', ' 25')
+         ensures=['0 <= result and result <= 65535', 'py_int_ok(port_string) and result == py_int_val(port_string)',
+                  'py_isdigit(port_string)'],
+         raises={'AssertionError': ['not py_isdigit(port_string) or not py_int_ok(port_string) or py_int_val(port_string) < 0 '
+                                    'or py_int_val(port_string) > 65535']},
          modifies=['fresh'])
 
 extern('ProxyProtocolV1.parse_pp_line', params={'cls': 'Cls', 'line': 'Bytes'}, returns='Tuple[Addr, Addr]',
@@ -260,3 +263,9 @@ contract('ProxyProtocolV1.parse_pp_line#body', qual='ProxyProtocolV1.parse_pp_li
                  'implies(ncalls("ProxyProtocolV1.__get_pp_port") == 2, ncalls("ProxyProtocolV1.__get_pp_family") == 1 '
                  '        and ncalls("ProxyProtocolV1.__get_pp_ip") == 2)'],
          modifies=['fresh'], locals={'parts': 'List[Bytes]'})
+
+
+_ISDIGIT = z3.Function('py_isdigit', z3.StringSort(), z3.BoolSort())
+calls.SPECFUNS['py_isdigit'] = lambda st, args: Val(T.BOOL, _ISDIGIT(args[0].z))
+calls.METHOD_MODELS[('bytes', 'isdigit')] = lambda st, recv, args, kw: Val(T.BOOL, _ISDIGIT(recv.z))
+calls.METHOD_MODELS[('str', 'isdigit')] = lambda st, recv, args, kw: Val(T.BOOL, _ISDIGIT(recv.z))
